@@ -1355,7 +1355,7 @@ def run(ctx):
     ctx.log("witnesses replayed")
 
     rng = ctx.rng("gen")
-    n_prog = ctx.pick(12, 80)
+    n_prog = ctx.pick(12, 60)
     per_prog = ctx.pick(9, 14)
     results = {"cases": [], "meta": [], "broken": [], "direct": [], "indep": [], "decor_seed": {},
                "trials": ctx.pick(1, 2), "seq_len": ctx.pick(4, 6), "whole_root": ctx.pick(0.5, 1.0)}
